@@ -34,6 +34,7 @@ from mc.lang import V
 from mc.lang import FL
 from mc.lang import S
 from mc.lang import flt
+from mc.vloop import run_solo
 
 ID = "C11"
 LEVEL = "exploration"
@@ -123,6 +124,19 @@ def extra_programs(n: grammar.Names) -> list[dict[str, Any]]:
         "{% capture cc %}{{ g }}{% endcapture %}{{ cc | size }}{% increment cnt %}{{ cnt }}{% decrement cnt %}",
         "{% case g %}{% when h, 1 %}{{ arr[0] }}{% when 'a' %}{{ arr.last | upcase }}{% else %}{{ h.size }}{% endcase %}",
         "{% unless g %}{{ h | strip }}{% elsif arr %}{{ arr[g] }}{% else %}{{ a.b[h.a].c }}{% endunless %}",
+        # the same partial loaded inside a block that binds one of its names and again outside it (both orders)
+        "{% for a in arr %}{% include 'inc' %}{% endfor %}{% include 'inc' %}",
+        "{% include 'inc' %}{% for a in arr %}{% include 'inc' %}{% endfor %}",
+        "{% with it: g %}{% include 'inc' %}{% endwith %}{% include 'inc' %}{% for it in arr %}{% include 'inc' %}{% endfor %}",
+        "{% for a in arr %}{% render 'inc' %}{% endfor %}{% render 'inc' %}{% render 'inc', a: 1 %}",
+        "{% macro mm a %}{% render 'inc' %}{% endmacro %}{% call mm 1 %}{% include 'inc' %}",
+        # names bound by a block are not in scope in the parts of the block that run without the binding
+        "{% for it in nosuch %}{{ it }}{% else %}{{ it }}{{ forloop.index }}{% endfor %}",
+        "{% tablerow a in nosuch %}{{ a }}{% endtablerow %}{{ a }}",
+        # inline conditions without an else branch: tail filters (and their arguments) apply either way
+        "{{ g if h || append: a | prepend: \"${ arr | first | upcase }\" }}",
+        "{{ g | upcase if h || append: a }}{{ g if h.a | default: it }}",
+        "{% assign q = g if h || default: a, allow_false: made %}{{ q }}{% echo g if false || map: x => x.k | join: unbound %}",
         "{% liquid\n assign q = g | times: 2\n if q\n  echo q | plus: h.a\n endif\n for i in arr\n  cycle i, q\n endfor\n%}",
     ]
     return [{"source": s, "templates": t, "own_data": False} for s in progs]
@@ -200,16 +214,38 @@ def check_case(case: dict[str, Any], res: ShardResult | None) -> list[tuple[str,
     rep_vars, rep_filters, rep_tags = set(an.variables), set(an.filters), set(an.tags)
     bound = set(an.locals)
     extra = {"source": src, "templates": {k: v for k, v in templates.items() if k != "main"}}
-    for v in sorted(used_vars - rep_vars):
-        out.append((f"C11:variable-used-but-not-reported:{_where(src, v)}", extra, {"used": v, "reported": sorted(rep_vars)}))
-    for f in sorted(used_filters - rep_filters):
-        out.append((f"C11:filter-applied-but-not-reported:{_filter_where(src, f)}", extra, {"applied": f, "reported": sorted(rep_filters)}))
-    for g_ in sorted(used_tags - rep_tags):
-        out.append((f"C11:tag-executed-but-not-reported:{g_}", extra, {"executed": g_, "reported": sorted(rep_tags)}))
-    # ('translations' is the engine's configuration variable for the catalog (translations_var), looked up by the
-    #  translate tag and filters themselves, not a name the template mentions)
-    for name in sorted(x for x in reached - bound - set(an.globals) - {"translations"} if isinstance(x, str)):
-        out.append((f"C11:global-lookup-not-reported:{_where(src, name)}", extra, {"looked_up_in_globals": name, "reported_globals": sorted(an.globals), "locals": sorted(bound)}))
+    # the asynchronous twin of the analysis is a separate implementation: the same inclusions must hold for its report
+    reports = [("", an)]
+    kind_a, an_a = run_solo(env.get_template("main").analyze_async())
+    if kind_a == "ok":
+        reports.append((":async", an_a))
+        ns, na = _norm_report(an), _norm_report(an_a)
+        if ns != na:
+            part = next(k for k in ns if ns[k] != na[k])
+            out.append((f"C11:async-analysis-differs:{part}", extra, {"sync": ns[part], "async": na[part]}))
+    elif not isinstance(an_a, LiquidError):
+        out.append((f"C11:analyze-async-raises:{type(an_a).__name__}", {"source": src}, f"{type(an_a).__name__}: {an_a}"))
+    missed_sync: set[tuple[str, Any]] = set()
+    for tag_, rep in reports:
+        r_vars, r_filters, r_tags, r_bound = set(rep.variables), set(rep.filters), set(rep.tags), set(rep.locals)
+        for v in sorted(used_vars - r_vars):
+            if _dup(missed_sync, tag_, "v", v):
+                continue
+            out.append((f"C11:variable-used-but-not-reported{tag_}:{_where(src, v)}", extra, {"used": v, "reported": sorted(r_vars)}))
+        for f in sorted(used_filters - r_filters):
+            if _dup(missed_sync, tag_, "f", f):
+                continue
+            out.append((f"C11:filter-applied-but-not-reported{tag_}:{_filter_where(src, f)}", extra, {"applied": f, "reported": sorted(r_filters)}))
+        for g_ in sorted(used_tags - r_tags):
+            if _dup(missed_sync, tag_, "t", g_):
+                continue
+            out.append((f"C11:tag-executed-but-not-reported{tag_}:{g_}", extra, {"executed": g_, "reported": sorted(r_tags)}))
+        # ('translations' is the engine's configuration variable for the catalog (translations_var), looked up by the
+        #  translate tag and filters themselves, not a name the template mentions)
+        for name in sorted(x for x in reached - r_bound - set(rep.globals) - {"translations"} if isinstance(x, str)):
+            if _dup(missed_sync, tag_, "g", name):
+                continue
+            out.append((f"C11:global-lookup-not-reported{tag_}:{_where(src, name)}", extra, {"looked_up_in_globals": name, "reported_globals": sorted(rep.globals), "locals": sorted(r_bound)}))
     # ---- spans
     nspans = 0
     for name, vs in list(an.variables.items()) + list(an.globals.items()) + list(an.locals.items()):
@@ -239,6 +275,24 @@ def check_case(case: dict[str, Any], res: ShardResult | None) -> list[tuple[str,
         res.count("tags_executed", len(used_tags & rep_tags))
         res.outcomes.add(h64([len(rep_vars), len(rep_filters), len(rep_tags)]))
     return out
+
+
+def _norm_report(an: Any) -> dict[str, Any]:
+    def vs(d: Any) -> Any:
+        return {k: sorted((str(v), v.span.template_name, v.span.start, v.span.end) for v in lst) for k, lst in d.items()}
+
+    def sp(d: Any) -> Any:
+        return {k: sorted((x.template_name, x.start, x.end) for x in lst) for k, lst in d.items()}
+
+    return {"variables": vs(an.variables), "globals": vs(an.globals), "locals": vs(an.locals), "filters": sp(an.filters), "tags": sp(an.tags)}
+
+
+def _dup(missed_sync: set[tuple[str, Any]], tag_: str, kind: str, item: Any) -> bool:
+    """An omission of the synchronous report is reported once; the asynchronous report is only charged with its own."""
+    if not tag_:
+        missed_sync.add((kind, item))
+        return False
+    return (kind, item) in missed_sync
 
 
 def _slice(templates: dict[str, str], span: Any, t: Any) -> str | None:
